@@ -12,6 +12,7 @@ import thespian.actors as ta
 
 from esrally import metrics, racecontrol, track
 from esrally.driver import driver
+from esrally.driver import runner as _runner_mod
 
 from harness import actors, c01
 from harness.common import StubCfg, concrete
@@ -445,6 +446,18 @@ def _c04_complete_during_wait(sl):
     return c04.timings(sl)
 
 
+def _c04_queue_full(sl):
+    from harness import c04
+
+    return c04.queue_full(sl)
+
+
+def _c18_composite_streams(sl):
+    from harness import c18
+
+    return c18.composite_streams(sl)
+
+
 class _RcMetrics:
     def __init__(self, p):
         self.p = p
@@ -872,4 +885,14 @@ HARNESSES.append(Harness("adapter_wiring", adapter_wiring, "bounded-exhaustive",
                          bounds={"parallel element": "1..3 single-client sub-tasks on 1..2 clients (over-committed when sub-tasks > clients)", "iterations": "1..2",
                                  "worker's first client id": "0 or 4"},
                          doc="client id, task and operation of every sample through the real AsyncIoAdapter"))
+HARNESSES.append(Harness("queue_full_then_drained", _c04_queue_full, "bounded-exhaustive", lambda tier: [{"size": n} for n in (1, 2, 4)],
+                         reads=[driver.Sampler.add, driver.Sampler.samples.fget], stubs=["harness shared with C04 queue_full"],
+                         bounds={"queue size": "1, 2, 4", "sequence": "overflow, drain, overflow, drain, fill, drain"},
+                         doc="only a full queue reduces the number of records: a drained queue records again"))
+HARNESSES.append(Harness("composite_sub_requests", _c18_composite_streams, "symbolic", lambda tier: [{"max_connections": m} for m in (1, 2, 16)],
+                         reads=[_runner_mod.Composite.__call__, _runner_mod.Composite.run_stream, driver.Sample.dependent_timings.fget],
+                         stubs=["sub-runners are gated stubs, clock symbolic (harness shared with C18 composite_streams)"], real_valued=True,
+                         bounds={"request structure": "two concurrent streams followed by a plain request on the same level; every order of their wire events"},
+                         doc="every executed sub-request of a composite operation yields one dependent timing (-> one service_time record), also for "
+                             "streams that are joined before a later request"))
 BUDGET = {"quick": 170, "thorough": 1200}
